@@ -317,7 +317,7 @@ func (nd *cnode) walk(path string, parent *cnode, idx int, maxArr int, out *[]cp
 
 var malformations = []string{"absent", "null", "type-uint", "type-array", "type-tstr", "empty", "zero", "negative",
 	"oversize-2^32", "oversize-2^63", "len-prefix-2^32", "len-prefix+1", "truncated-half", "truncated-1", "extended",
-	"inner-count-2^32", "inner-count-0", "inner-count+1", "dup-last", "drop-last", "copy-sibling", "bitflip", "all-ff"}
+	"inner-count-2^32", "inner-count-2^27", "inner-count-0", "inner-count+1", "dup-last", "drop-last", "copy-sibling", "bitflip", "all-ff"}
 
 // applyMalformation mutates the tree in place (call it on a clone); false = not applicable to this node.
 func applyMalformation(p cpath, kind string) bool {
@@ -431,7 +431,7 @@ func applyMalformation(p cpath, kind string) bool {
 		}
 		c.rawHeader = cborMinHeader(nd.major, n+1)
 		return replace(c)
-	case "truncated-half", "truncated-1", "extended", "bitflip", "all-ff", "inner-count-2^32", "inner-count-0", "inner-count+1":
+	case "truncated-half", "truncated-1", "extended", "bitflip", "all-ff", "inner-count-2^32", "inner-count-2^27", "inner-count-0", "inner-count+1":
 		if nd.major != 2 && nd.major != 3 {
 			return false
 		}
@@ -466,6 +466,11 @@ func applyMalformation(p cpath, kind string) bool {
 				return false
 			}
 			copy(c, []byte{0xff, 0xff, 0xff, 0xff})
+		case "inner-count-2^27": // the count at which a 32-bit `32*count` wraps to zero
+			if len(c) < 5 || nd.major != 2 || !nd.embed || len(nd.prefix) != 4 {
+				return false
+			}
+			copy(c, []byte{0x08, 0, 0, 0})
 		case "inner-count-0":
 			if len(c) < 5 || nd.major != 2 {
 				return false
